@@ -6,7 +6,8 @@
     primitive is modelled with its wrap-around and its carry / borrow flag exactly as the Rust helper
     returns it (add_in_place, sub_in_place, add_word_in_place, sub_one_in_place, add_mul_word_in_place,
     shr_in_place_with_carry, overflowing_add / overflowing_sub of double words); the i8 bookkeeping
-    variable [c] is an integer (GrlKsqrtProof.ksqrt_c_range: it stays within -2..2).  Failed
+    variable [c] is an integer (in the proof c*W^n + a_lo is the exact signed remainder at every step and
+    |remainder| < 3*W^n, so c stays within -2..2 and the i8 never overflows).  Failed
     debug_asserts are [Panic Undocumented].  Taken through their contracts: DoubleWord::sqrt_rem
     (= Z.sqrt with remainder, C12 primitive roots), div::div_rem_in_place (remainder, quotient,
     quotient carry; proved in C02), sqr::sqr (= the square; C01). *)
